@@ -299,7 +299,7 @@ func c10Exec(c *mon.Ctx, r *mon.Rand, withSleep bool) {
 		closeAt = r.Intn(n)
 	}
 	c.Eval(1)
-	var wantOK, wantErr, typedNil int64
+	var wantOK, wantErr, typedNil, panics int64
 	var outcomes []string
 	desc := func() interface{} {
 		return map[string]interface{}{"cached": cached, "prefix": opts.Prefix, "separator": sepArg, "name": name, "outcomes": outcomes}
@@ -316,6 +316,25 @@ func c10Exec(c *mon.Ctx, r *mon.Rand, withSleep bool) {
 						outcomes = append(outcomes, "(report pass)")
 					}
 				}
+			}
+			if r.Chance(1, 10) {
+				// the instrumented function panics and the caller recovers further up
+				// (as servers do): the call moves at most one of the two counters and
+				// records at most one latency
+				panics++
+				outcomes = append(outcomes, "panic")
+				ran := 0
+				func() {
+					defer func() { recover() }()
+					call.Exec(func() error {
+						ran++
+						panic("instrumented function panics")
+					})
+				}()
+				if ran != 1 {
+					c.Violation("exec-ran-not-once", map[string]interface{}{"why": fmt.Sprintf("function ran %d times", ran), "case": desc()})
+				}
+				continue
 			}
 			var retErr error
 			if r.Chance(1, 8) {
@@ -401,12 +420,12 @@ func c10Exec(c *mon.Ctx, r *mon.Rand, withSleep bool) {
 		}
 	}
 	c.Event("exec-calls", int64(n))
-	if gotOK < wantOK || gotErr < wantErr || gotOK+gotErr != wantOK+wantErr+typedNil {
+	if gotOK < wantOK || gotErr < wantErr || gotOK+gotErr < wantOK+wantErr+typedNil || gotOK+gotErr > wantOK+wantErr+typedNil+panics {
 		c.Violation("exec-counters", map[string]interface{}{"why": fmt.Sprintf("success/error counters moved by %d/%d, outcomes were %d/%d", gotOK, gotErr, wantOK, wantErr), "case": desc()})
 	}
-	if len(lat) != n {
-		c.Violation("exec-latency-count", map[string]interface{}{"why": fmt.Sprintf("%d latencies recorded for %d calls", len(lat), n), "case": desc()})
-	} else {
+	if int64(len(lat)) > int64(n) || int64(len(lat)) < int64(n)-panics {
+		c.Violation("exec-latency-count", map[string]interface{}{"why": fmt.Sprintf("%d latencies recorded for %d calls (%d of them panicked)", len(lat), n, panics), "case": desc()})
+	} else if panics == 0 {
 		for i, e := range lat {
 			if time.Duration(e.I) < minLatency[i] {
 				c.Violation("exec-latency-value", map[string]interface{}{"why": fmt.Sprintf("call %d slept %v inside the function but a latency of %v was recorded", i, minLatency[i], time.Duration(e.I)), "case": desc()})
